@@ -36,6 +36,10 @@ def plan(ctx):
             sets = rnd.sample(sets, lim)
         for i, ch in enumerate(chunks(sets, 16)):
             obs.append(xor_l1_ob(k, m, hd, ch, b=4, band=True, tag="band", idx=i))
+        # the adapter's op table (flat_xor_hd_decode / _reconstruct decide what the public API returns): decode AND reconstruct of every erased index
+        asets = sets if thorough else sets[:24]
+        for i, ch in enumerate(chunks(asets, 8)):
+            obs.append(be_l1_ob(XOR, k, m, hd, ch, band=True, tag="bandops", idx=i, timeout=1500))
     return {"obs": obs,
             "assumptions": ["every non-empty subset of the stripe for the listed small RS/ISA-L shapes through the public API; flat-XOR band hd<=|E|<=m at the back-end interface (the front end passes these sets through)",
                             "CBMC pointer/bounds checks stand for 'never reads or writes outside the buffers'; buffers are exact-size objects"],
